@@ -22,7 +22,7 @@ UNIT_DEFAULTS = {
     "enforce": [], "replace": [], "restrict_fp": [], "unwindset": [],
     "cbmc": {}, "label": "proved-unbounded", "bound": "none", "trusted": [],
     "min_obligations": 1, "timeout": 120, "timeout_thorough": 900, "mem_gb": 8,
-    "tiers": ["quick", "thorough"], "defines": [], "defines_thorough": [],
+    "tiers": ["quick", "thorough"], "defines": [], "defines_thorough": [], "defines_quick": [],
     "exclude": [], "allow_no_body": [], "replaced_verified_in": {}, "canary": True,
     "ndebug": True, "known_finding": None, "native": True,
 }
@@ -174,6 +174,9 @@ def resolve_loop_contracts(u, gb, wd):
     return p, info
 
 
+PROOF_LABELS = ("proved-unbounded", "proved-lemma", "proved-complete")
+
+
 class Undecided(Exception):
     pass
 
@@ -189,8 +192,7 @@ def goto_build(u, wd, tier, extra_defines=()):
     """goto-cc + goto-instrument.  Returns (final goto binary, info dict)."""
     flags = build_flags(u["tu"], ndebug=u.get("ndebug", True))
     defs = ["-D" + GUARD, "-DVF_CBMC"] + ["-D" + d for d in u["defines"]] + ["-D" + d for d in extra_defines]
-    if tier == "thorough":
-        defs += ["-D" + d for d in u["defines_thorough"]]
+    defs += ["-D" + d for d in (u["defines_thorough"] if tier == "thorough" else u["defines_quick"])]
     inc = ["-I" + os.path.join(VERIF, "include"), "-I" + u["dir"], "-I" + os.path.join(VERIF, "contracts")]
     a = os.path.join(wd, "a.gb")
     cmd = ["goto-cc"] + defs + flags + inc + ["--function", "harness", os.path.join(u["dir"], "unit.c"), "-o", a]
@@ -470,8 +472,16 @@ def _replace_old(expr, olds, prefix):
     return out
 
 
-def gen_native(contracts):
+def gen_native(contracts, replaced_names=()):
+    """Native checkers for the contracts.  Natively the REAL callees run, so ghost variables that only a
+    replaced callee's contract assigns are not maintained; ensures clauses that mention one are skipped."""
     g = ["/* generated by vf/driver.py from the unit's contract text — do not edit */"]
+    ghost = set()
+    for c in contracts:
+        if c["name"] in replaced_names:
+            for kind, body in c["clauses"]:
+                if kind == "__CPROVER_assigns":
+                    ghost |= set(re.findall(r"\bg_\w+", body))
     for c in contracts:
         olds = []; req = []; ens = []
         nr = ne = 0
@@ -481,6 +491,9 @@ def gen_native(contracts):
                 req.append('VF_REQ_("%s.requires.%d", (%s));' % (c["name"], nr, body))
             elif kind == "__CPROVER_ensures":
                 ne += 1
+                if ghost & set(re.findall(r"\bg_\w+", body)):
+                    ens.append('/* %s.postcondition.%d skipped natively: mentions ghost state of a replaced callee */' % (c["name"], ne))
+                    continue
                 b = _replace_old(body, olds, c["name"]).replace("__CPROVER_return_value", "vf_ret")
                 ens.append('VF_ENS_("%s.postcondition.%d", (%s));' % (c["name"], ne, b))
         rett = "int" if c["ret"] == "void" else c["ret"]
@@ -497,7 +510,7 @@ def gen_native(contracts):
     return "\n".join(g) + "\n"
 
 
-def native_replay(u, in_value, extra_defines=()):
+def native_replay(u, in_value, extra_defines=(), failed=None):
     """Compile the unit natively (gcc + ASan/UBSan) with IN fixed to the counterexample and run it.
     Returns dict(reproduced: bool|None, output: str)."""
     if not u.get("native", True):
@@ -508,14 +521,14 @@ def native_replay(u, in_value, extra_defines=()):
     wd = tempfile.mkdtemp(prefix=u["name"] + ".native.", dir=WORK)
     try:
         contracts = extract_contracts(u, wd)
-        open(os.path.join(wd, "vf_native_gen.h"), "w").write(gen_native(contracts))
+        open(os.path.join(wd, "vf_native_gen.h"), "w").write(gen_native(contracts, [c for (_f, c) in u["replace"]]))
         open(os.path.join(wd, "vf_in_values.h"), "w").write("#define VF_IN_INIT %s\n" % c_initializer(in_value))
         open(os.path.join(wd, "wrapper.c"), "w").write('#include "vf_in_values.h"\n#include "%s"\n#include "vf_native_gen.h"\n' % os.path.join(u["dir"], "unit.c"))
         flags = build_flags(u["tu"], ndebug=u.get("ndebug", True))
         inc = ["-I" + wd, "-I" + os.path.join(VERIF, "include"), "-I" + u["dir"], "-I" + os.path.join(VERIF, "contracts")]
         exe = os.path.join(wd, "replay.bin")
         cmd = ["gcc", "-g", "-O0", "-w", "-fsanitize=address,undefined", "-fno-sanitize-recover=undefined", "-DVF_NATIVE", "-D" + GUARD] \
-            + ["-D" + d for d in u["defines"]] + ["-D" + d for d in extra_defines] + flags + inc \
+            + ["-D" + d for d in u["defines"]] + ["-D" + d for d in u["defines_quick"]] + ["-D" + d for d in extra_defines] + flags + inc \
             + [os.path.join(wd, "wrapper.c"), "-o", exe, "-Wl,--unresolved-symbols=ignore-all", "-no-pie", "-lpthread"]
         rc, out, err, _ = run(cmd, 300, mem_gb=64, cwd=wd)
         if rc != 0:
@@ -527,7 +540,17 @@ def native_replay(u, in_value, extra_defines=()):
             rcx = p.returncode
         except subprocess.TimeoutExpired:
             txt = "native run timed out"; rcx = -999
-        rep = bool(re.search(r"VF-NATIVE: (ASSERT-FAIL|ENSURES-FAIL)|ERROR: AddressSanitizer|runtime error:", txt)) or rcx < 0 and rcx != -999
+        san = bool(re.search(r"ERROR: AddressSanitizer|runtime error:", txt)) or (rcx < 0 and rcx != -999)
+        same = False
+        if failed:
+            fid = failed.get("id", ""); desc = failed.get("description", "") or ""
+            if ("VF-NATIVE: ENSURES-FAIL %s\n" % fid) in txt:
+                same = True
+            if desc and ("[%s]" % desc) in txt:
+                same = True
+        else:
+            same = bool(re.search(r"VF-NATIVE: (ASSERT-FAIL|ENSURES-FAIL)", txt))
+        rep = san or same
         if re.search(r"VF-NATIVE: (ASSUME-FALSE|REQUIRES-FALSE)", txt) and not rep:
             rep = None
         return {"reproduced": rep, "output": txt[-6000:], "exit": rcx, "cmd": " ".join(cmd), "IN": in_value}
